@@ -26,12 +26,33 @@ RULE = ('Parser level, both framing versions. (1) Mutation grammar over valid fr
         'containing e and nothing afterwards; no error - no exception. Session level: UnixSocketSession worker thread over a '
         'socketpair with 1-3 pending asynchronous RPCs and a scripted peer: (a) valid replies interleaved with correctly framed '
         'garbage frames, (b) a frame that is not UTF-8, (c) 1.1 streams that break chunk framing. A case is (base, segment list) '
-        'or a session script; non-trivial = non-empty stream.')
+        'or a session script; non-trivial = non-empty stream. '
+        '(d) scenario h (tools/harness/c14_hist.py), every one of the 14 device profiles x both framings: histories "hostile / malformed '
+        'message, then later requests" in phases - requests (asynchronous, and synchronous in their own threads), valid replies, notifications, '
+        'then payloads that are not XML (an error report inside garbage, a correct-looking reply to an outstanding request behind garbage, '
+        'text a profile tries to repair, ...) and messages with a VALID root start tag (<rpc-reply message-id=..>, <notification>) whose body is '
+        'not well-formed (15 kinds: mismatched / unclosed / truncated tags, bare &, stray <, undefined entity, control character, unquoted / '
+        'duplicate attribute, second root, trailing text, unbound prefix, open CDATA, bad comment); the application then takes the notifications '
+        'with Manager.take_notification. Oracle (expat as the independent reader): a request holds its own reply text or nothing; a synchronous '
+        'call never returns, an asynchronous caller cannot parse, a reply that is not well-formed; take_notification returns exactly the '
+        'well-formed notifications sent, in order, with a usable notification_ele, never a payload that is not well-formed; only a payload that '
+        'is not XML may end the session and then everything outstanding is failed; every request of a LATER phase whose valid reply is sent '
+        'holds it. Session clause on the extended session LTS (coq/Model/SessionSoft.v = SessionLTS + the non-fatal error broadcast of '
+        'Session._dispatch_message + the malformed notification; runner LTSX): deterministic-scheduler runs of the real Session.run / RPC / '
+        'listener threads - a sweep of every profile x every hostile text x both framings and of every malformed body behind a <notification> '
+        '/ <rpc-reply> start tag, pre-emption-bounded schedules of five small scenarios, random scenarios (half of them histories) - validated '
+        'label by label against the extracted model and judged by oracle_c14 (tools/harness/lts_check.py): a stored reply is a message the '
+        'server sent with that id, a payload that is not well-formed is never returned / parsable / taken / queued, a failed request failed with '
+        'an error that was broadcast while it existed (or was refused by a closed session), a valid reply received before the wait ended is '
+        'delivered.')
 ASSUMES = ['CPython bytes/str/re built-ins behave as modelled (validated by every case)',
            'session level runs on wall-clock time with bounds of 3-5 s; a failing run is re-executed and reported only if it fails three times',
-           'what a listener does with a delivered text (RPCReplyListener message-id matching) is covered by C03/C04; here only: garbage frames never reach an RPC as data']
+           'what a listener does with a delivered text (RPCReplyListener message-id matching) is covered by C03/C04; here only: garbage frames never reach an RPC as data',
+           'an asynchronous caller that reads RPCReply.xml of a reply whose body is not well-formed sees the raw text (documented lazy parsing); every parsed view (parse(), ok, error, data) raises: the checks require the latter',
+           'which payloads a profile answers with an exception (non-fatal broadcast) is read off the run (an error broadcast followed by more work of the session thread), not assumed: dropped, failing the outstanding requests, or ending the session are all accepted, each with its own consequences checked']
 TRUSTED = ['modelled, not verified: CPython bytes/str/re built-ins used by parser.py',
-           'tools/harness/framing.py (ParserRig, oracle10/oracle11, SessionRig)']
+           'tools/harness/framing.py (ParserRig, oracle10/oracle11, SessionRig)', 'tools/harness/c14_hist.py (HistRig, scenario h)',
+           'tools/harness/lts.py / sched.py / lts_check.py (scenario runner, deterministic scheduler, effect log -> labels)', 'expat (independent well-formedness reader)']
 ALLOWED_AXIOMS = []
 
 
@@ -486,23 +507,52 @@ def run_script(case):
             obs['worker_alive_after_close'] = True
 
 
+def run_any_script(case):
+    if case.get('scenario') == 'h':
+        from harness import c14_hist
+        return c14_hist.run_script(case)
+    return run_script(case)
+
+
 def session_level(ctx):
     rng = ctx.rng
-    n = 42 if ctx.tier == 'quick' else 210
-    for i in range(n):
-        base = 10 if i % 2 == 0 else 11
-        scen = ['a', 'b', 'c'][i % 3] if base == 11 else ['a', 'b'][(i // 2) % 2]
-        case = make_script(rng, base, scen)
-        ok, what, sig, obs = run_script(case)
+    from harness import c14_hist
+    quick = ctx.tier == 'quick'
+    n = 36 if quick else 210
+    # histories "hostile / malformed message, then later requests" on the real transport: every device profile, both framings
+    # (quick: each profile once, the framing alternates with the profile and the seed; the session LTS part sweeps all of them)
+    nh = len(c14_hist.PROFILES) * (1 if quick else 10)
+    plan = [('abc', i) for i in range(n)] + [('h', j) for j in range(nh)]
+    cases = []
+    for kind, i in plan:
+        if kind == 'h':
+            base = 10 if (i + ctx.seed + i // len(c14_hist.PROFILES)) % 2 == 0 else 11
+            cases.append(('h', base, c14_hist.make_script(rng, base, c14_hist.PROFILES[i % len(c14_hist.PROFILES)], quick)))
+        else:
+            base = 10 if i % 2 == 0 else 11
+            scen = ['a', 'b', 'c'][i % 3] if base == 11 else ['a', 'b'][(i // 2) % 2]
+            cases.append((scen, base, make_script(rng, base, scen)))
+    # the scripts are independent (own socketpair, own session, own worker thread) and spend their time waiting for the
+    # session thread's select() tick: a few of them run side by side; a failing one is re-executed alone
+    jobs = max(1, min(4, int(os.environ.get('VERIF_JOBS', '2') or 2)))
+    with ThreadPoolExecutor(max_workers=jobs) as pool:
+        results = list(pool.map(lambda c: run_any_script(c[2]), cases))
+    for (scen, base, case), (ok, what, sig, obs) in zip(cases, results):
         tries = 1
         while not ok and tries < 3:
-            ok2, what2, sig2, obs2 = run_script(case); tries += 1
+            ok2, what2, sig2, obs2 = run_any_script(case); tries += 1
             if ok2:
                 ok = True; ctx.note('session-level case failed once and passed on re-execution: %s' % what)
             else:
                 what, sig, obs = what2, sig2, obs2
         ctx.count(case, nontrivial=True)
-        ctx.hist('level', 'session'); ctx.hist('session_scenario', '%s/1.%d' % (scen, base - 10)); ctx.hist('session_pending', case['n_rpc'])
+        ctx.hist('level', 'session'); ctx.hist('session_scenario', '%s/1.%d' % (scen, base - 10))
+        if scen == 'h':
+            ctx.hist('session_profile', case['profile']); ctx.hist('session_end', 'ended' if not obs.get('connected', True) else 'alive')
+            for ph in case['phases']:
+                for it in ph['items']: ctx.hist('session_hist_item', it[0])
+        else:
+            ctx.hist('session_pending', case['n_rpc'])
         if ok:
             ctx.traces += 1
         else:
@@ -517,24 +567,32 @@ def lts_session_clause(ctx):
     from vlib.model import Model
     from harness import lts_check
     with build.Lock():
-        ok, log = build.build_runner('LTS')
-    model = Model('LTS') if ok else None
+        # the extended session LTS (Model/SessionSoft.v: SessionLTS + non-fatal error broadcast + malformed notification);
+        # its glue is not among COQ_ROOTS' targets: a fresh / changed tree must (re)build it
+        mok, mlog, _ = build.make(['Glue/LTSX_glue.vo'])
+        ok, log = build.build_runner('LTSX') if mok else (False, mlog)
+    model = Model('LTSX') if ok else None
     if not ok:
-        ctx.disagree({'lts': 'C14'}, 'LTS runner builds', log[-300:], 'extraction of Glue/LTS_glue.v')
+        ctx.disagree({'lts': 'C14'}, 'LTSX runner builds', log[-300:], 'extraction of Glue/LTSX_glue.v')
     q = ctx.tier == 'quick'
-    lts_check.check(ctx, 'C14', n_random=250 if q else 4000, dfs_bound=2 if q else 3, dfs_cap=120 if q else 3000, model=model)
+    lts_check.check(ctx, 'C14', n_random=180 if q else 4000, dfs_bound=2 if q else 3, dfs_cap=40 if q else 2000, model=model)
 
 
 def run(ctx):
+    t0 = time.time(); phase = {}
     P = Pipeline(ctx)
     corpus_and_witnesses(ctx, P)
     mutation_level(ctx, P)
     complete = exhaustive_level(ctx, P)
     P.finish()
+    phase['parser_level'] = round(time.time() - t0, 1); t0 = time.time()
     # the documented finite space (RULE (2)) was fully enumerated; the mutation grammar and the session level are samples
     ctx.exhaustive = bool(complete)
     session_level(ctx)
+    phase['session_scripts'] = round(time.time() - t0, 1); t0 = time.time()
     lts_session_clause(ctx)
+    phase['session_lts'] = round(time.time() - t0, 1)
+    ctx.extra['phase_seconds'] = phase
     if not ctx.model:
         ctx.note('model runner missing: model comparisons skipped, oracles still ran')
 
@@ -575,7 +633,7 @@ def reproduce(finding):
     w = finding['witness']
     from vlib import paths; paths.use_repo()
     if w.get('level') == 'session':
-        return all(not run_script(w)[0] for _ in range(3))
+        return all(not run_any_script(w)[0] for _ in range(3))
     return not F().judge(w['base'], [bytes.fromhex(h) for h in w['segs']])[0]
 
 
@@ -587,8 +645,11 @@ def replay(doc):
         from harness import lts_check
         return lts_check.replay(doc, 'C14')
     if c.get('level') == 'session':
-        ok, what, sig, obs = run_script(c)
-        print('case     : session scenario %s, base 1.%d, %d pending, items %r' % (c['scenario'], c['base'] - 10, c['n_rpc'], c['items']))
+        ok, what, sig, obs = run_any_script(c)
+        if c['scenario'] == 'h':
+            print('case     : session history, profile %s, base 1.%d, phases %r' % (c['profile'], c['base'] - 10, c['phases']))
+        else:
+            print('case     : session scenario %s, base 1.%d, %d pending, items %r' % (c['scenario'], c['base'] - 10, c['n_rpc'], c['items']))
         print('expected :', doc.get('expected')); print('actual   :', obs)
         if not ok: print('FAILS    : [%s] %s' % (sig, what))
         return ok
